@@ -6,6 +6,7 @@ use crate::topics::topic_actor::{PublishMessagesResponse, TopicActor, TopicReque
 use crate::topics::topic_manager::TopicManagerDelegate;
 use crate::topics::{TopicMessage, TopicName};
 use std::cmp::Ordering;
+use std::sync::atomic::{self, AtomicBool};
 use std::sync::Arc;
 #[cfg(not(deltio_verif))]
 use tokio::sync::{mpsc, oneshot};
@@ -25,6 +26,10 @@ pub struct Topic {
 
     /// The topic actor's mailbox.
     sender: mpsc::Sender<TopicRequest>,
+
+    /// Whether the topic has been deleted. The `Topic` itself lives on for as long as
+    /// requests that looked it up earlier are in flight.
+    deleted: AtomicBool,
 }
 
 /// Provides information about the topic.
@@ -43,7 +48,18 @@ impl Topic {
             name,
             internal_id,
             sender,
+            deleted: AtomicBool::new(false),
         }
+    }
+
+    /// Marks the topic as deleted.
+    pub fn mark_deleted(&self) {
+        self.deleted.store(true, atomic::Ordering::SeqCst);
+    }
+
+    /// Whether the topic has been deleted.
+    pub fn is_deleted(&self) -> bool {
+        self.deleted.load(atomic::Ordering::SeqCst)
     }
 
     /// Publishes the messages.
